@@ -129,6 +129,24 @@ def clang_ast(tu_rel, flags, filt):
     return load_multi_json(p.stdout)
 
 
+# pure static helpers called from the translated functions: fetched on demand, read in place (see Tr.pure_helper)
+HELPER_CTX = {"tu": None, "flags": None, "cache": {}}
+
+
+def helper_decl(name):
+    if HELPER_CTX["tu"] is None:
+        return None
+    if name not in HELPER_CTX["cache"]:
+        try:
+            objs = clang_ast(HELPER_CTX["tu"], HELPER_CTX["flags"], name)
+            fs = [o for o in objs if o.get("kind") == "FunctionDecl" and o.get("name") == name and
+                  any(c.get("kind") == "CompoundStmt" for c in o.get("inner", []))]
+            HELPER_CTX["cache"][name] = fs[0] if len(fs) == 1 else None
+        except T2Error:
+            HELPER_CTX["cache"][name] = None
+    return HELPER_CTX["cache"][name]
+
+
 def get_function(objs, name, tu):
     fs = [o for o in objs if o.get("kind") == "FunctionDecl" and o.get("name") == name and
           any(c.get("kind") == "CompoundStmt" for c in o.get("inner", []))]
@@ -323,6 +341,17 @@ class Tr:
                 fail(e, "conditional operator arms of different or non-integer types")
             return V("(if %s then %s else %s)" % (c, a.term, b.term), rt, nonneg=(a.nonneg and b.nonneg))
         if k == "CallExpr":
+            ph = self.pure_helper(e, env)
+            if ph is not None:
+                self._hdepth = getattr(self, "_hdepth", 0) + 1
+                try:
+                    rt = ctype(e)
+                    if rt.kind in "us" and strip_casts(ph[0]).get("kind") in ("BinaryOperator", "UnaryOperator") and \
+                            strip_casts(ph[0]).get("opcode") in ("&&", "||", "!", "==", "!=", "<", ">", "<=", ">="):
+                        return V("(if %s then 1 else 0)" % self.cond(ph[0], ph[1]), rt, nonneg=True)
+                    return self.val(ph[0], ph[1])
+                finally:
+                    self._hdepth -= 1
             callee = self.callee_name(e)
             if callee == "__builtin_bswap64":
                 a = self.val(e["inner"][1], env)
@@ -331,6 +360,109 @@ class Tr:
                 return V("bswap64 %s" % paren(a.term), CT("u", 64))
             fail(e, "call to unsupported function '%s' in expression" % callee)
         fail(e, "unsupported expression kind")
+
+    def pure_helper(self, e, env):
+        """(return expression, environment) when e calls a static helper whose body is `[const T x = ..;]* return <expr>;`
+        over its parameters only: the call is then read as that expression with the arguments in place of the parameters"""
+        if e.get("kind") != "CallExpr":
+            return None
+        f = e["inner"][0]
+        while f.get("kind") in ("ImplicitCastExpr", "ParenExpr"):
+            f = f["inner"][0]
+        if f.get("kind") != "DeclRefExpr":
+            return None
+        fd = helper_decl(f["referencedDecl"]["name"])
+        if fd is None or fd.get("storageClass") != "static" or getattr(self, "_hdepth", 0) > 3:
+            return None
+        body = self.flatten([c for c in fd["inner"] if c.get("kind") == "CompoundStmt"])
+        if not body or body[-1].get("kind") != "ReturnStmt" or not body[-1].get("inner"):
+            return None
+        params = [c for c in fd["inner"] if c.get("kind") == "ParmVarDecl"]
+        args = e["inner"][1:]
+        if len(params) != len(args):
+            return None
+        for st in body[:-1]:
+            if st.get("kind") != "DeclStmt" or any(d.get("kind") != "VarDecl" or "const" not in d["type"]["qualType"] or
+                                                   not [c for c in d.get("inner", []) if c.get("kind") != "FullComment"]
+                                                   for d in st["inner"]):
+                return None
+        henv = {}
+        for pd, a in zip(params, args):
+            if "*" in pd["type"]["qualType"]:
+                return None          # only scalar parameters: nothing can be written through them
+            henv[pd["name"]] = self.val(a, env)
+        self._hdepth = getattr(self, "_hdepth", 0) + 1
+        try:
+            for st in body[:-1]:
+                for d in st["inner"]:
+                    init = [c for c in d.get("inner", []) if c.get("kind") != "FullComment"][0]
+                    henv[d["name"]] = self.val(init, henv)
+        finally:
+            self._hdepth -= 1
+        return body[-1]["inner"][0], henv
+
+    def check_helper(self, ch, env):
+        """(statements, environment) when `if (<ch[0]>) <ch[1]>` is `if (H(args)) return <non-zero>;` with H a static
+        function of the same translation unit whose body ends in the only `return 0;` and which receives the manager and
+        the job under their own names and otherwise constants"""
+        e = strip_casts(ch[0])
+        while e.get("kind") in ("ParenExpr", "ImplicitCastExpr"):
+            e = e["inner"][0]
+        neg = False
+        if e.get("kind") == "BinaryOperator" and e.get("opcode") == "!=" and self.val(e["inner"][1], env).const == 0:
+            e = strip_casts(e["inner"][0])
+        if e.get("kind") != "CallExpr" or neg:
+            return None
+        f = e["inner"][0]
+        while f.get("kind") in ("ImplicitCastExpr", "ParenExpr"):
+            f = f["inner"][0]
+        if f.get("kind") != "DeclRefExpr":
+            return None
+        fd = helper_decl(f["referencedDecl"]["name"])
+        if fd is None or fd.get("storageClass") != "static" or self.pure_helper(e, env) is not None:
+            return None
+        then_s = self.flatten([ch[1]])
+        if len(then_s) != 1 or then_s[0].get("kind") != "ReturnStmt":
+            return None
+        rv = self.val(then_s[0]["inner"][0], env)
+        if rv.const is None or rv.const == 0:
+            return None
+        body = self.flatten([c for c in fd["inner"] if c.get("kind") == "CompoundStmt"])
+        if not body or body[-1].get("kind") != "ReturnStmt" or not body[-1].get("inner"):
+            return None
+        last = self.val(body[-1]["inner"][0], {})
+        if last.const != 0:
+            return None
+        params = [c for c in fd["inner"] if c.get("kind") == "ParmVarDecl"]
+        args = e["inner"][1:]
+        if len(params) != len(args):
+            return None
+        henv = {}
+        for pd, a in zip(params, args):
+            if "*" in pd["type"]["qualType"]:
+                b = strip_casts(a)
+                if not (b.get("kind") == "DeclRefExpr" and b["referencedDecl"]["name"] == pd["name"] and
+                        (pd["name"] == "state" or pd["name"] in self.job_names)):
+                    fail(a, "helper %s: pointer argument is not the caller's %s" % (fd["name"], pd["name"]))
+            else:
+                v = self.val(a, env)
+                if v.const is None:
+                    fail(a, "helper %s: scalar argument %s is not a constant" % (fd["name"], pd["name"]))
+                henv[pd["name"]] = v
+        # the helper's own locals: which of them are assigned (mutable) and which job fields it reads
+        self.prescan_paths(fd)
+
+        def scan_assigned(n):
+            if n.get("kind") == "CompoundAssignOperator" or (n.get("kind") == "BinaryOperator" and n.get("opcode") == "=") or \
+               (n.get("kind") == "UnaryOperator" and n.get("opcode") in ("++", "--")):
+                l = strip_casts(n["inner"][0])
+                if l.get("kind") == "DeclRefExpr":
+                    self.assigned.add(l["referencedDecl"]["name"])
+            for c in n.get("inner", []):
+                if isinstance(c, dict):
+                    scan_assigned(c)
+        scan_assigned(fd)
+        return body[:-1], henv
 
     def callee_name(self, e):
         f = e["inner"][0]
@@ -396,6 +528,8 @@ class Tr:
             rd = lv["referencedDecl"]
             name = rd["name"]
             if rd["kind"] == "ParmVarDecl":
+                if env.get(name) is not None and name not in self.params and name not in self.job_names and name != "state":
+                    return env[name]          # scalar parameter of a helper read in place: bound to the argument
                 if name in self.params:
                     return V(name, ctype(lv))
                 if name in self.job_names:
@@ -593,6 +727,17 @@ class Tr:
                         ">": "(%s <? %s)", ">=": "(%s <=? %s)"}[op] % ((x, y) if op in ("==", "!=", "<", "<=") else (y, x))
         if k == "UnaryOperator" and e.get("opcode") == "!":
             return "negb %s" % paren(self.cond(e["inner"][0], env))
+        if k in ("ImplicitCastExpr", "CStyleCastExpr") and strip_casts(e).get("kind") == "CallExpr" and \
+                self.pure_helper(strip_casts(e), env) is not None:
+            return self.cond(strip_casts(e), env)
+        if k == "CallExpr":
+            ph = self.pure_helper(e, env)
+            if ph is not None:
+                self._hdepth = getattr(self, "_hdepth", 0) + 1
+                try:
+                    return self.cond(ph[0], ph[1])      # the helper's result used as a truth value
+                finally:
+                    self._hdepth -= 1
         v = self.val(e, env)      # scalar used as a truth value: != 0
         if v.ct.kind not in ("u", "s", "ptr"):
             fail(e, "non-scalar condition")
@@ -731,6 +876,16 @@ class Tr:
             ch = s["inner"]
             if len(ch) not in (2, 3) or s.get("hasInit") or s.get("hasVar"):
                 fail(s, "unsupported if statement shape")
+            sub_check = self.check_helper(ch, env) if len(ch) == 2 else None
+            if sub_check is not None:
+                # `if (helper(state, job, consts..)) return 1;` where helper is a list of checks of the same kind (each
+                # failing one sets the error and returns non-zero, the end returns 0): read in place, its checks come
+                # before the rest of this function
+                hbody, henv = sub_check
+                hctx = dict(ctx)
+                hctx["is_fn_tail"] = False
+                hctx["fall"] = lambda _e, _rest=rest, _env=env, _ctx=ctx: self.block(_rest, _env, _ctx)
+                return self.block(hbody, henv, hctx)
             c = self.cond(ch[0], env)
             then_s = self.flatten([ch[1]])
             else_s = self.flatten([ch[2]]) if len(ch) == 3 else None
@@ -1475,6 +1630,7 @@ class BurstTr(Tr):
 # ------------------------------------------------------------------ driver
 def translate_tu(tu_rel, enumvals):
     flags = tu_flags(tu_rel)
+    HELPER_CTX.update(tu=tu_rel, flags=flags, cache={})
     objs = clang_ast(tu_rel, flags, "is_job_invalid")
     f_light = get_function(objs, "is_job_invalid_light", tu_rel)
     f_full = get_function(objs, "is_job_invalid", tu_rel)
